@@ -171,6 +171,34 @@ def run(tier):
         sc = {"meta": meta, "sql": "SELECT id FROM stream WHERE " + sql(w), "rows": [gl.row(j + 1) for j in range(6)]}
         if i % 2: sc["mode"] = "sync"
         scen.append(sc)
+    # several goroutines evaluate the SAME compiled predicate / select item at the same time (EmitSync callers): the value of an expression
+    # is a function of its row, not of what another goroutine is evaluating. vpark(x) = x gives the processor away inside the
+    # evaluation, so the evaluations overlap for certain.
+    gc = Gen(rng, nulls=False, cases=False, nots=False, explicit_null=False, strs=False, paths=False, fns=False, negs=False)
+    def park(e):
+        """wrap the first column reference of a predicate into vpark()"""
+        import copy
+        e = copy.deepcopy(e)
+        done = [False]
+        def walk(x):
+            if done[0] or not isinstance(x, dict): return x
+            if x.get("t") == "col":
+                done[0] = True
+                return {"t": "fn", "f": "vpark", "args": [x]}
+            for k in ("a", "b"):
+                if k in x and not done[0]: x[k] = walk(x[k])
+            return x
+        return walk(e)
+    for i in range(40 if quick else 1500):
+        gc.in_where = True
+        w = park(gc.flatchain(rng.choice([1, 2, 3])) if i % 2 else gc.pred(2))
+        gc.in_where = False
+        sel = [{"al": "id", "e": exprgen.col("id")}, {"al": "r0", "e": park(gc.numexpr(2))}]
+        if sel[1]["e"]["t"] == "num": sel.pop()
+        meta = {"fam": "direct", "star": 0, "chan": 0, "sel": sel, "where": w, "profile": "concurrent", "conc": 1}
+        sc = {"meta": meta, "sql": "SELECT " + ", ".join(it["al"] if it["al"] == "id" else "%s AS %s" % (sql(it["e"]), it["al"]) for it in sel) + " FROM stream WHERE " + sql(w),
+              "rows": [gc.row(j + 1) for j in range(rng.choice([8, 12]))], "mode": "sync", "concsync": rng.choice([4, 8]), "seed": rng.randrange(1 << 30), "chan": False}
+        scen.append(sc)
     seqfam.run_scenarios(res, scen, "TraceDirect", tag="expr", relayout_p=0.3, retype_p=0.3, rename_p=0.3)
     seqfam.run_pinned(res, "TraceDirect")
     nerr = sum(1 for w, _ in res.violations if w.startswith("engine_execerr"))
